@@ -12,7 +12,7 @@ rfbClientListMutex (L), cursorMutex (C).  One step = one LOCK/UNLOCK/WAIT/TSIGNA
 the code (plus the plain code up to the next such point; racy reads of `sock`/`state` that steer
 control are separate silent steps).  `succ s t` lists the successors of thread `t` (empty = blocked or
 terminated), `Step`/`Reach` quantify over ALL schedules, any number of clients, unbounded length.
-The model follows the code with fixes/C13-01 … C13-08 applied (docs/C13.md); `skeleton_matches` ties
+The model follows the code with fixes/C13-01 … C13-04 applied (docs/C13.md); `skeleton_matches` ties
 it to the working tree on every run, the harness ties it by trace inclusion.
 
 What is proved here (every theorem is about every reachable state, i.e. every schedule):
